@@ -75,6 +75,11 @@ func c05Jobs(tier string) []string {
 	// then goes silent: the first timeout comes long after the last transmission
 	add("or=r,devs=,mss=100,w=6x100,trickle=150x4,b=0", 1)
 	add("or=r,devs=,mss=100,w=10x100,trickle=120x6,b=0", 1)
+	// the peer answers for a while (the stack has round-trip samples), then goes silent: the
+	// back-off must double from timeout to timeout exactly as it does without samples
+	add("or=r,devs=,mss=100,w=8x100,silentafter=2,silent=5,b=0", 1)
+	add("or=r,devs=,mss=100,w=8x100,silentafter=3,silent=5,rtt=50,b=0", 1)
+	add("or=r,devs=,mss=100,w=8x100,silentafter=2,silent=4,ts=1,b=0", 1)
 	add("or=r,devs=l,mss=100,w=3000,silent=1,b=1", 2)
 	add("or=r,devs=l,mss=100,w=3000,silent=1,rtt=50,b=1", 2)
 	if tier == "thorough" {
